@@ -1,5 +1,5 @@
 // impl.go: what the model cannot exhibit is exercised on the implementation only: routines that
-// concurrently define variables and methods, call shared functions, print, and touch a synchronized instance while its
+// concurrently define variables, functions and methods, call shared functions nobody has called before, print, and touch a synchronized instance while its
 // mode is set again.  Every routine logs (k ok) where ok is 1 when the value it saw equals the value the same
 // expression has sequentially; the parent demands: every routine finishes, every ok is 1, the process
 // survives, and (race-enabled worker) no data race is reported.
@@ -65,11 +65,11 @@ func genImpl(ctx *common.Ctx, uid int) []implJob {
 		last := fmt.Sprintf("*c17v-%d-%d-%d*", uid, nr-1, per-1)
 		mk("impl-defvar", nil, bodies, counts, []string{last}, []string{fmt.Sprint((nr-1)*1000 + per - 1 + 1)}, 0, nil)
 	}
-	// ---- calls of a shared, already compiled function and of routine-local lambdas ----
-	// (routines do NOT define functions: known finding C17-findfunc-unlocked)
+	// ---- calls of a shared function that nobody has called before (its forms are compiled in place by the routines
+	//      that get there first) and of routine-local lambdas ----
 	{
 		shared := fmt.Sprintf("c17sq-%d", uid)
-		setup := []string{fmt.Sprintf("(defun %s (x) (let ((y (* x x))) (+ y 1)))", shared), fmt.Sprintf("(%s 2)", shared)}
+		setup := []string{fmt.Sprintf("(defun %s (x) (let ((y (* x x))) (cond ((< y 0) (list y y)) ((> y 100000) (- y)) (t (when (> x -1) (+ y 1))))))", shared)}
 		var bodies []string
 		var counts []int
 		for i := 0; i < nr; i++ {
@@ -82,6 +82,31 @@ func genImpl(ctx *common.Ctx, uid int) []implJob {
 			counts = append(counts, 2*per)
 		}
 		mk("impl-call", setup, bodies, counts, []string{fmt.Sprintf("(%s 5)", shared)}, []string{"26"}, 0, nil)
+	}
+	// ---- every routine defines functions of its own and calls them, and calls a function that another routine
+	//      defines (defined by the time it is called: the definer says so on a channel) ----
+	{
+		var bodies []string
+		var counts []int
+		for i := 0; i < nr; i++ {
+			var b strings.Builder
+			for k := 0; k < per; k++ {
+				name := fmt.Sprintf("c17f-%d-%d-%d", uid, i, k)
+				fmt.Fprintf(&b, "(defun %s (x) (let ((y (+ x %d))) (if (< y 0) (list y) (* y 2))))%s %s ", name, k, yield(),
+					okEntry(k, fmt.Sprintf("(%s %d)", name, i), fmt.Sprint(2*(i+k))))
+			}
+			// tell the next routine that my first function exists, call the first function of the previous one
+			fmt.Fprintf(&b, "(channel-push c%d 1) (channel-pop c%d) %s ", i, (i+nr-1)%nr,
+				okEntry(per, fmt.Sprintf("(c17f-%d-%d-0 7)", uid, (i+nr-1)%nr), "14"))
+			bodies = append(bodies, b.String())
+			counts = append(counts, per+1)
+		}
+		mk("impl-defun", nil, bodies, counts, []string{fmt.Sprintf("(c17f-%d-0-0 1)", uid)}, []string{"2"}, 0, nil)
+		caps := make([]int, nr)
+		for c := range caps {
+			caps[c] = 1
+		}
+		out[len(out)-1].Job.Caps = caps
 	}
 	// ---- defmethod on shared generic functions + dispatch ----
 	{
@@ -121,14 +146,21 @@ func genImpl(ctx *common.Ctx, uid int) []implJob {
 			`(prin1-to-string (list %d 1.5 2/3 "q\"q" 'sym))`,
 		}
 		var setup []string
-		// grow the printer's indentation buffer once, sequentially (see known finding C17-printer-spaces-race)
-		setup = append(setup, `(write-to-string '(a (b (c (d (e (f (g (h (i (j (k (l (m (n (o (p)))))))))))))))) :pretty t :right-margin 8)`)
 		var bodies []string
 		var counts []int
 		for i := 0; i < nr; i++ {
 			var b strings.Builder
 			for k := 0; k < per; k++ {
 				e := fmt.Sprintf(exprs[(i+k)%len(exprs)], i*100+k)
+				if (i+k)%3 == 0 {
+					// pretty printing with line breaks at an indentation that grows from routine to routine and from
+					// expression to expression (the indentation was once taken from a shared buffer grown on demand)
+					nest := fmt.Sprint(i*100 + k)
+					for d := 0; d < 3+2*k+i; d++ {
+						nest = "(aaaa " + nest + ")"
+					}
+					e = fmt.Sprintf("(write-to-string '%s :pretty t :right-margin %d)", nest, 12+4*k+2*i)
+				}
 				ref := fmt.Sprintf("*c17p-%d-%d-%d*", uid, i, k)
 				setup = append(setup, fmt.Sprintf("(defvar %s %s)", ref, e))
 				fmt.Fprintf(&b, "%s%s ", okEntry(k, e, ref), yield())
